@@ -2,7 +2,7 @@ import vlib
 
 CFG = {
     "id": "C07", "harness": "c07",
-    "check_vo": "theories/Check/C07.vo", "prop_vo": "theories/Properties/C07.vo",
+    "check_vo": "theories/Formats/StlBigProofs.vo", "prop_vo": "theories/Properties/C07.vo",
     "prop_file": "theories/Properties/C07.v",
     "theory_files": ["theories/Base/Bytes.v", "theories/Base/BytesProofs.v",
                      "theories/Formats/Stl.v", "theories/Formats/StlProofs.v", "theories/Formats/StlBigProofs.v"],
